@@ -17,7 +17,7 @@ PID = 'C18'
 LEAN_TARGETS = ['CfVerif.Props.C18']
 PROPS_MODULES = ['CfVerif.Props.C18']
 DRIVER = 'Driver/C18.lean'
-REQUIRED_THEOREMS = ['CfVerif.C18.unwire_wire', 'CfVerif.C18.version_rejected', 'CfVerif.C18.reassembly',
+REQUIRED_THEOREMS = ['CfVerif.C18.router_survives_rejected_packets', 'CfVerif.C18.unwire_wire', 'CfVerif.C18.version_rejected', 'CfVerif.C18.reassembly',
                      'CfVerif.C18.router_fifo_per_function', 'CfVerif.C18.crtp_uplink_id', 'CfVerif.C18.crtp_downlink_id']
 TRUSTED = ['harness/corr/c18.py extractor + correspondence', 'socket.recv(n) modelled as: returns 1..n bytes from the head of the stream',
            "native 'H' = little-endian u16", 'queue.Queue is FIFO']
@@ -77,6 +77,20 @@ def extract(ctx):
     r = X.find(tree, 'CPXRouter')
     g.strings('routerRunCompares', X.compares(X.find(r, 'run')))
     g.strings('routerReceiveCompares', X.compares(X.find(r, 'receivePacket')))
+    # the read loop's exception handling: which classes are caught, and that the handler does not leave the loop
+    rrun = X.find(r, 'run')
+    tries = [n for n in ast.walk(rrun) if isinstance(n, ast.Try)]
+    X.expect(len(tries) == 1 and len(tries[0].handlers) == 1, 'CPXRouter.run: expected one try with one handler')
+    h = tries[0].handlers[0]
+    if h.type is None:
+        names = ['BaseException']
+    elif isinstance(h.type, ast.Tuple):
+        names = [ast.unparse(t) for t in h.type.elts]
+    else:
+        names = [ast.unparse(h.type)]
+    g.strings('routerHandlers', names)
+    g.raw('def routerHandlerLeavesLoop : Bool := ' + ('true' if any(isinstance(n, (ast.Break, ast.Return, ast.Raise)) for b in h.body for n in ast.walk(b)) else 'false'))
+    g.raw('def routerTryInsideLoop : Bool := ' + ('true' if any(isinstance(n, ast.While) and tries[0] in n.body for n in ast.walk(rrun)) else 'false'))
     # socket transport: length prefix format/argument, the recv() argument and the loop condition
     t = X.find(X.parse('cflib/cpx/transports.py'), 'SocketTransport')
     sc = X.struct_calls(X.find(t, 'writePacket'))
@@ -219,10 +233,10 @@ class ScriptTransport:
         self.h = router_holder
 
     def readPacket(self):
+        p = self.pkts.pop(0)
         if not self.pkts:
-            self.h[0]._connected = False
-            raise EOFError('script done')
-        return self.pkts.pop(0)
+            self.h[0]._connected = False      # last packet of the batch: the loop condition ends run()
+        return p
 
 
 def real_router(script):
@@ -269,6 +283,59 @@ def real_router(script):
                 break
         out.append('%d:%s' % (fnv, ','.join(items) if items else '-'))
     return 'ok ' + (' '.join(out) if out else '-')
+
+
+class StreamSocket(FakeSocket):
+    """FakeSocket that ends the router's loop cleanly when the stream is exhausted: it clears the router's
+    `_connected` flag and the transport's socket, so `_readData` returns short and the loop condition stops the thread."""
+
+    def __init__(self, chunks, router, transport):
+        FakeSocket.__init__(self, chunks)
+        self.router, self.transport = router, transport
+
+    def recv(self, n):
+        while self.chunks and len(self.chunks[0]) == 0:
+            self.chunks.pop(0)
+        if not self.chunks:
+            self.router._connected = False
+            self.transport._socket = None
+            return b''
+        return FakeSocket.recv(self, n)
+
+
+def real_router_stream(regs, chunks):
+    """the REAL CPXRouter.run reading through the REAL SocketTransport from a scripted socket"""
+    import contextlib
+    import io
+    cpx, tr = _cpx()
+    r = cpx.CPXRouter.__new__(cpx.CPXRouter)
+    r._rxQueues = {}
+    r._connected = True
+    t = tr.SocketTransport.__new__(tr.SocketTransport)
+    r._transport = t
+    t._socket = StreamSocket(chunks, r, t)
+    died = None
+    with contextlib.redirect_stdout(io.StringIO()), contextlib.redirect_stderr(io.StringIO()):
+        for f in regs:
+            try:
+                r.receivePacket(cpx.CPXFunction(f), timeout=0.0)
+            except queue.Empty:
+                pass
+        try:
+            r.run()
+        except BaseException as e:      # an exception escaping run() kills the router thread
+            died = e
+    out = []
+    for fnv in sorted(r._rxQueues):
+        items = []
+        while True:
+            try:
+                p = r._rxQueues[fnv].get(block=False)
+                items.append(str(p.data[0]) if len(p.data) else '256')
+            except queue.Empty:
+                break
+        out.append('%d:%s' % (fnv, ','.join(items) if items else '-'))
+    return 'ok %s %s' % (' '.join(out) if out else '-', 'died' if died is not None else 'alive')
 
 
 def real_tunnel_up(header, data):
@@ -405,6 +472,33 @@ def gen_cases(ctx):
                 script.append(('pkt', rng.choice(FUNCS), rng.randrange(256)))
         line = 'router ' + (','.join('r%d' % o[1] if o[0] == 'reg' else 'p%d:%d' % (o[1], o[2]) for o in script) or '-')
         cases.append(('router', line, lambda s=script: real_router(s), {'op': 'router', 'script': script}, ('router', tuple(script))))
+    # router thread on byte streams with rejected packets in between good ones
+    for k in range(600 if thorough else 150):
+        regs = sorted({rng.choice(FUNCS) for _ in range(rng.randrange(0, 4))})
+        frames = []
+        for _ in range(rng.randrange(1, 7)):
+            src, dst, fn = rng.choice(TARGETS), rng.choice(TARGETS), rng.choice(regs + FUNCS) if regs else rng.choice(FUNCS)
+            data = bytes(rng.randrange(256) for _ in range(rng.choice([0, 1, 1, 2, 5])))
+            tf = (src << 3) | dst | (0x40 if rng.random() < 0.3 else 0)
+            kind = rng.random()
+            if kind < 0.62:
+                body = bytes([tf, fn]) + data                                   # good packet
+            elif kind < 0.74:
+                body = bytes([tf, fn | (rng.choice([1, 2, 3]) << 6)]) + data      # unsupported version
+            elif kind < 0.84:
+                body = bytes([rng.choice([0, 5, 6, 7]) << 3 | dst, fn]) + data     # unknown target
+            elif kind < 0.92:
+                body = bytes([tf, rng.choice([0, 6, 13, 40])]) + data             # unknown function
+            else:
+                body = bytes([tf][:rng.randrange(0, 2)])                          # short packet (0 or 1 bytes)
+            frames.append(struct.pack('<H', len(body)) + body)
+        stream = b''.join(frames)
+        ncuts = rng.choice([0, 1, 3, 8])
+        pts = sorted({rng.randrange(1, len(stream)) for _ in range(ncuts)} if len(stream) > 1 else set())
+        chunks = [stream[a:b] for a, b in zip([0] + pts, pts + [len(stream)])]
+        line = 'rstream %s %s' % (','.join(map(str, regs)) or '-', ','.join(hexs(c) for c in chunks))
+        cases.append(('rstream', line, lambda rg=regs, c=chunks: real_router_stream(rg, c),
+                      {'op': 'rstream', 'regs': regs, 'frames': len(frames), 'cuts': pts[:6]}, ('rstream', tuple(regs), stream, tuple(pts))))
     # CRTP tunnel
     for h in range(256):
         data = bytes(rng.randrange(256) for _ in range(rng.choice([0, 0, 1, 7, 30, 31])))
@@ -502,6 +596,22 @@ def search(ctx):
         got = real_router(script)
         if got != want:
             ctx.witness('router', 'router queue contents differ from per-function arrival order', {'script': script}, got=got, want=want)
+    # (4b) a rejected packet (bad version / unknown target or function) neither kills the router nor stops later packets
+    for trial in range(80):
+        good = [(rng.choice(FUNCS), rng.randrange(256)) for _ in range(rng.randrange(2, 6))]
+        regs = sorted({f for f, _ in good})
+        pos = rng.randrange(0, len(good))
+        bad = rng.choice([bytes([(3 << 3) | 1, 3 | (rng.choice([1, 2, 3]) << 6), 9]), bytes([(7 << 3) | 1, 3, 9]), bytes([(3 << 3) | 1, 0, 9])])
+        frames = [struct.pack('<H', 3) + bytes([(3 << 3) | 3, f, tag]) for f, tag in good]
+        frames.insert(pos, struct.pack('<H', len(bad)) + bad)
+        stream = b''.join(frames)
+        pts = sorted({rng.randrange(1, len(stream)) for _ in range(rng.choice([0, 2, 6]))})
+        chunks = [stream[a:b] for a, b in zip([0] + pts, pts + [len(stream)])]
+        want = 'ok ' + ' '.join('%d:%s' % (f, ','.join(str(t) for ff, t in good if ff == f)) for f in regs) + ' alive'
+        got = real_router_stream(regs, chunks)
+        if got != want:
+            ctx.witness('router-rejected-packet', 'a rejected packet stopped the routing of later packets / killed the router thread',
+                        {'registered': regs, 'frames': [fr.hex() for fr in frames], 'rejected_at': pos, 'chunks': [c.hex() for c in chunks]}, got=got, want=want)
     # (5) CRTP tunnel identity both ways (downlink: reserved header bits 2-3 forced to 1 by CRTPPacket, as on every link)
     for h in range(256):
         for n in (0, 1, 30):
